@@ -45,6 +45,13 @@ def c12 (sf : SpokFile) (cwd : Str) (o : Obs12) : Option Bool :=
     else
       some (o.err = .none && o.after = expectedAfter o.before ds)
 
+/-- a user-defined `clean` task whose command FAILS: the failure is reported (non-zero exit) and spok itself still removes
+    nothing — the task is run *instead* of spok's own clean, however it ends -/
+def c12failing (sf : SpokFile) (o : Obs12) : Bool :=
+  o.ranCleanTask && decide (o.err ≠ .none) &&
+  o.before.all (fun e => o.after.contains e) &&
+  o.after.all (fun e => o.before.contains e || e.1 = pathOf sf.cacheDir)
+
 /-- the observation the model produces -/
 def obsOfModel (sf : SpokFile) (cwd : Str) (fs : FS) (taskRun : FS → FS × Bool) (ran : Bool) : Obs12 :=
   let r := handleClean sf cwd fs taskRun
